@@ -15,6 +15,7 @@ import (
 	"encoding/json"
 	"errors"
 	"fmt"
+	"io"
 	"os"
 	"os/exec"
 	"path/filepath"
@@ -155,6 +156,11 @@ type Run struct {
 	StdoutFile string   // if set, stdout goes to this path (opened O_WRONLY|O_CREATE|O_TRUNC, or as is for devices)
 	Rlimit     int64    // RLIMIT_FSIZE in bytes through prlimit(1); 0 = none
 	Wrap       []string // command prefix (e.g. strace ...)
+	// StdoutPipeClose >= 0: stdout is a pipe whose reader takes exactly this many
+	// bytes and then closes its end (0: closed before the child starts writing).
+	// The bytes read are returned in Result.Stdout.
+	StdoutPipeClose int
+	PipeClose       bool
 }
 
 func (s *SUT) baseEnv(dir string) []string {
@@ -194,6 +200,62 @@ func (s *SUT) exec(bin string, r Run) Result {
 	cmd.WaitDelay = 5 * time.Second
 	var so, se bytes.Buffer
 	cmd.Stderr = &se
+	var pipeDone chan []byte
+	if r.PipeClose {
+		pr, pw, err := os.Pipe()
+		if err != nil {
+			return Result{Exit: -2, Stderr: []byte(err.Error())}
+		}
+		cmd.Stdout = pw
+		pipeDone = make(chan []byte, 1)
+		n := r.StdoutPipeClose
+		if n == 0 {
+			pr.Close()
+			pipeDone <- nil
+		} else {
+			go func() {
+				buf := make([]byte, n)
+				got, _ := io.ReadFull(pr, buf)
+				pr.Close()
+				pipeDone <- buf[:got]
+			}()
+		}
+		defer pw.Close()
+		cmd.Stderr = &se
+		dn, _ := os.Open(os.DevNull)
+		defer dn.Close()
+		cmd.Stdin = dn
+		if r.StdinFile != "" {
+			f, err := os.Open(r.StdinFile)
+			if err == nil {
+				defer f.Close()
+				cmd.Stdin = f
+			}
+		}
+		err = cmd.Start()
+		pw.Close()
+		if err == nil {
+			err = cmd.Wait()
+		}
+		res := Result{Stdout: <-pipeDone, Stderr: se.Bytes()}
+		if ctx.Err() == context.DeadlineExceeded {
+			res.TimedOut = true
+		}
+		var ee *exec.ExitError
+		switch {
+		case err == nil:
+		case errors.As(err, &ee):
+			if ws, ok := ee.Sys().(syscall.WaitStatus); ok && ws.Signaled() {
+				res.Exit = -1
+				res.Signal = ws.Signal().String()
+			} else {
+				res.Exit = ee.ExitCode()
+			}
+		default:
+			res.Exit = -2
+		}
+		return res
+	}
 	if r.StdoutFile != "" {
 		f, err := os.OpenFile(r.StdoutFile, os.O_WRONLY|os.O_CREATE|os.O_TRUNC, 0o644)
 		if err != nil {
